@@ -48,6 +48,7 @@ type MemStore struct {
 	readsInFlight atomic.Int64
 	maxReads      atomic.Int64
 	handleLog     []handleEvent
+	extents       []ReadExtent
 	nextHandle    int
 	ReadDelay     time.Duration
 }
@@ -108,6 +109,7 @@ func (s *MemStore) ResetLog() {
 	s.mu.Lock()
 	s.log = nil
 	s.seq = 0
+	s.extents = nil
 	s.mu.Unlock()
 }
 
@@ -269,8 +271,42 @@ func (r *memReader) Read(p []byte) (int, error) {
 	if d := r.s.ReadDelay; d > 0 {
 		time.Sleep(d)
 	}
-	return r.r.Read(p)
+	off, _ := r.r.Seek(0, io.SeekCurrent)
+	n, err := r.r.Read(p)
+	r.s.mu.Lock()
+	r.s.extents = append(r.s.extents, ReadExtent{File: r.name, Off: int(off), Len: n, Handle: r.id})
+	r.s.mu.Unlock()
+	return n, err
 }
+
+// ReadExtent is one successful DataStore read: which bytes of which file, through which handle.
+type ReadExtent struct {
+	File   string
+	Off    int
+	Len    int
+	Handle int
+}
+
+func (s *MemStore) Extents() []ReadExtent {
+	s.mu.Lock()
+	defer s.mu.Unlock()
+	return append([]ReadExtent(nil), s.extents...)
+}
+
+// Misuses lists handle-discipline breaches (use after close, concurrent use, double close).
+func (s *MemStore) Misuses() []string {
+	var out []string
+	for _, c := range s.Log() {
+		if c.Op == "MISUSE" {
+			out = append(out, c.File)
+		}
+	}
+	return out
+}
+
+func (s *MemStore) OpenHandles() int64 { return s.openHandles.Load() }
+func (s *MemStore) MaxConcurrentReads() int64 { return s.maxReads.Load() }
+func (s *MemStore) ResetReadGauge()     { s.maxReads.Store(0) }
 
 func (r *memReader) Seek(off int64, whence int) (int64, error) {
 	r.enter("seek")
